@@ -4,6 +4,11 @@ coq/Gen/Locks.v that this check regenerates with translate/locks from the Go sou
 + correspondence: queries of the real WalletManager whose database reads are numbered by the wrapper
 harness/internal/sched while the REAL handler goroutine commits blocks between chosen reads
 (harness/cmd/c17), replayed on the extracted model (ocaml/C17/driver.ml)
++ transaction-building calls (harness/cmd/c17/build.go): AutoCreateRawTransaction with one, two and three
+selection rounds, CreateStakingTransaction, CreateBindingTransaction, EstimateTxFee, CreateRawTransaction with
+explicit inputs; the wrapper numbers the READ TRANSACTIONS of the call and the real handler commits 1-3 blocks
+before each of them in turn; every result is compared with the extracted model coq/Sched/Build.v and judged by
+the extracted predicate tx_ok_at / refusal_ok_at (one boundary between the call's start and its end)
 + exploration (supporting evidence only): the same binary built with -race, API callers, block
 processing, import and removal running concurrently."""
 import json
@@ -19,6 +24,8 @@ TRUSTED = [
     "translator translate/locks (go/parser + go/ast only): which Lock/RLock..Unlock pairs and which suspend/resume bracket syntactically enclose each access to a field of NtfnsHandler, WalletManager, KeystoreManager, AddrManager, UtxoStore, "
     "propagated along the call graph from the thread roots (handle, worker, exported WalletManager methods, node callbacks, constructors/Start, Stop); regenerated into coq/Gen/Locks.v on every run; fails when an anchor is missing",
     "extraction: ExtrOcamlBasic only; N/Z/positive/nat stay inductive; ocaml/common/conv.ml + ocaml/C17/driver.ml (line parser, answer printer, uint32 masks: glue, no model logic)",
+    "transaction-building calls: harness/cmd/c17/build.go (a second DB wrapper that runs a hook right before BeginReadTx of the calling goroutine; one wallet per scenario, swept and re-funded before every placement), "
+    "W lines evaluated by ocaml/C17/driver.ml with the extracted build_sched / tx_boundary / refusal_boundary / lookup_can_fail / manual_boundary of coq/Sched/Build.v; selection, size estimate and relay fee are the C02 model functions (Tx/Select.v, Tx/Fee.v) on the coin rows of Reads.v",
     "Go harness harness/cmd/c17 + harness/internal/sched (mwdb.DB wrapper numbering the reads of a read transaction) + harness/internal/hist, harness/internal/sim (real WalletManager on LevelDB in /dev/shm over a simulated node)",
     "hooks (build tag verif): masswallet/query_verif.go VerifSpendableCoins (getUtxosExcludeBindingAndStaking under w.mu.RLock), masswallet/hooks_verif.go accessors",
     "environment, not verified: goleveldb (snapshot = the store at the moment it is taken; iterator pinned at creation), LevelDB batch atomicity, mass-core",
@@ -26,6 +33,12 @@ TRUSTED = [
 ]
 
 REPO_PKG = "massnet.org/mass-wallet/"
+JOBS = int(os.environ.get("VERIF_JOBS", V.NCPU))
+# Refusals that are right at a boundary only for an amount (dust adjustment / fee target) decided on ANOTHER boundary
+# (theorem C17_build_refusal_carried_refuted): judged by the theorem's predicate refusal_ok_at, counted in the
+# evidence; VERIF_C17_STRICT_REFUSALS=1 reports them under the key build-refusal-carried-adjustment instead.
+STRICT_REFUSALS = os.environ.get("VERIF_C17_STRICT_REFUSALS") == "1"
+BUILD_SCENARIOS = 72   # 8 calls x 9 kinds of pending blocks
 
 
 def run_translator(c):
@@ -179,6 +192,7 @@ def main(tier, replay=None):
     impl = os.path.join(c.workdir, "impl.txt")
     if replay:
         rp = json.load(open(replay))
+        replay_doc = rp
         firsts = sorted({v["replay"]["history"] for v in rp.get("violations", []) if "history" in v.get("replay", {})})
         os.environ["VERIF_SEED"] = str(rp.get("seed", c.seed))
         lines = []
@@ -188,7 +202,7 @@ def main(tier, replay=None):
         open(impl, "w").write("".join(lines))
         stats = "replay"
     else:
-        rc, o, e = V.sh([outs[0], "-n", str(n), "-out", impl, "-j", str(V.NCPU)], timeout=3000)
+        rc, o, e = V.sh([outs[0], "-n", str(n), "-out", impl, "-j", str(JOBS)], timeout=3000)
         stats = e.strip().splitlines()[-1] if e.strip() else ""
         if rc != 0:
             return c.finish(TRUSTED, no_input_break="harness cmd/c17 failed to run: " + (o + e)[-1500:])
@@ -247,6 +261,124 @@ def main(tier, replay=None):
     for h, (key, what, rp) in sorted(bad.items()):
         c.violation(key, what, rp)
 
+    # 2b. transaction-building calls: commits before every read transaction of the call
+    bimpl = os.path.join(c.workdir, "impl_build.txt")
+    nb = BUILD_SCENARIOS if tier == "quick" else BUILD_SCENARIOS * 6
+    if c.escalated:
+        nb *= 2
+    bstats, bw = "", {}
+    if replay:
+        scen = []
+        for v in sorted(replay_doc.get("violations", []), key=lambda v: v.get("key") == "build-model-mismatch"):
+            if "scenario" in v.get("replay", {}) and v["replay"]["scenario"] not in scen:
+                scen.append(v["replay"]["scenario"])
+        lines = []
+        for sidx in scen[:20]:
+            rc, o, e = V.sh([outs[0], "-worker", "-mode", "build", "-first", str(sidx), "-n", "1"], timeout=600)
+            lines.append(o)
+        open(bimpl, "w").write("".join(lines))
+    else:
+        rc, o, e = V.sh([outs[0], "-mode", "build", "-n", str(nb), "-out", bimpl, "-j", str(JOBS)], timeout=3000)
+        bstats = e.strip().splitlines()[-1] if e.strip() else ""
+        if rc != 0:
+            return c.finish(TRUSTED, no_input_break="harness cmd/c17 -mode build failed to run: " + (o + e)[-1500:])
+    rc, bmo, bme = V.sh("%s < %s" % (exe, bimpl), timeout=3000)
+    if rc != 0:
+        return c.finish(TRUSTED, no_input_break="model driver failed on the transaction-building family: " + bme[-1500:])
+    bhist, cur = {}, None
+    for l in V.read_lines(bimpl):
+        if l.startswith("H "):
+            cur = int(l.split()[1])
+            bhist[cur] = []
+        if cur is not None and l[:2] in ("W ", "X "):
+            bhist[cur].append(l)
+    bbad, bcalls, bkinds, bres = {}, {}, {}, {}
+    nW = nW_nontrivial = n_alone_tx = n_alone_ref = n_keep_like = 0
+    kinds_list = ["plain", "spendLS", "spendTop", "away", "chain", "mature", "create", "reorg", "ratchet"]
+    for l in bmo.splitlines():
+        f = l.split("\t")
+        if f[0] == "X":
+            harness_err.append(l)
+            continue
+        h = int(f[1])
+        if f[0] == "P":
+            if f[4] != f[5] and h not in bbad:
+                bbad[h] = ("history:model", "announcement of block %s: implementation %s, model %s" % (f[3], f[4], f[5]), {"scenario": h - 100000})
+            continue
+        if f[0] == "Q":
+            nq += 1
+            if f[5] != f[6] and h not in bbad:
+                bbad[h] = ("history:model", "quiescent report of wallet %s: implementation [%s] model [%s]" % (f[3], f[5][:300], f[6][:300]), {"scenario": h - 100000})
+            continue
+        if f[0] != "W":
+            continue
+        _, _, _, callp, im, model, keepeq, nri, nrm, boundary, alone, sched, lo, hi, others = f
+        call, placement = callp.split("@")
+        scen_i = h - 100000
+        kind = kinds_list[(scen_i // 8) % len(kinds_list)]
+        nW += 1
+        bcalls[call] = bcalls.get(call, 0) + 1
+        bkinds[kind] = bkinds.get(kind, 0) + 1
+        rcls = " ".join(im.split()[:2]) if im.startswith("err") else "ok"
+        bres[rcls] = bres.get(rcls, 0) + 1
+        if lo != hi:
+            nW_nontrivial += 1
+        man = call == "MAN"
+        rp_ = {"scenario": scen_i, "call": call, "pending_blocks": kind, "placement": int(placement), "implementation": im, "model": model,
+               "commit_index_per_read_transaction": sched, "first_and_last_commit_index": [int(lo), int(hi)],
+               "lines": [x for x in bhist.get(h, []) if x.startswith("X ") or (" %s " % callp) in x][:3],
+               "rerun": "VERIF_SEED=%d %s -worker -mode build -first %d -n 1 | grep ' %s '" % (c.seed, outs[0], scen_i, callp)}
+        viol = None
+        if im.startswith("ok"):
+            if boundary == "-1":
+                viol = ("build-mixed-boundary", "%s (pending blocks: %s), blocks committed before read transaction(s) as in schedule %s: the transaction that came back [%s] is a correct answer at NO block boundary between the call's start (%s) and its end (%s): "
+                        "some input is not an unspent, mature, unreserved coin of the wallet there, or value is not conserved%s" % (
+                            call, kind, sched, im[:300], lo, hi, " — this is the behaviour of the model that keeps the picks of earlier rounds (C17_build_single_boundary_refuted)" if keepeq == "1" else ""))
+            elif alone == "-1" and not man:
+                n_alone_tx += 1
+        elif rcls in ("err insufficient", "err overfull"):
+            if boundary == "-1":
+                viol = ("build-refusal-at-no-boundary", "%s (pending blocks: %s), schedule %s: refused for lack of funds, but at every boundary between %s and %s the funds within the input cap cover outputs + the largest fee target + the dust slack" % (call, kind, sched, lo, hi))
+            elif alone == "-1":
+                n_alone_ref += 1
+                if STRICT_REFUSALS:
+                    viol = ("build-refusal-carried-adjustment", "%s (pending blocks: %s), schedule %s: refused, although the call run alone at any boundary between %s and %s builds a transaction: the amount asked carries the dust adjustment / fee target decided on another boundary (C17_build_refusal_carried_refuted)" % (call, kind, sched, lo, hi))
+        elif rcls == "err lookup":
+            if boundary == "-1":
+                viol = ("build-lookup-failure-without-cause", "%s (pending blocks: %s), schedule %s: a previous-transaction look-up failed although every coin eligible at a boundary of the call can be looked up at every later one" % (call, kind, sched))
+        else:
+            viol = ("build-call-error", "%s (pending blocks: %s), schedule %s: %s" % (call, kind, sched, im[:300]))
+        if viol is None:
+            same = (im.split()[0:1] == model.split()[0:1] and (im.startswith("ok") or im == model)) if man else (im == model)
+            if not same or (nri != nrm and not (man and not im.startswith("ok"))) or (others != "0" and not man):
+                viol = ("build-model-mismatch", "%s (pending blocks: %s), schedule %s: implementation [%s] (%s read transactions, %s unmodelled), model Sched/Build.v [%s] (%s read transactions)" % (
+                    call, kind, sched, im[:300], nri, others, model[:300], nrm))
+        if keepeq == "1" and im != model:
+            n_keep_like += 1
+        # one report per scenario: a failing input of the property itself before a model difference
+        if viol and (h not in bbad or (bbad[h][0] == "build-model-mismatch" and viol[0] != "build-model-mismatch")):
+            bbad[h] = (viol[0], viol[1], rp_)
+    for h, (key, what, rp_) in sorted(bbad.items(), key=lambda kv: (kv[1][0] == "build-model-mismatch", kv[0])):
+        c.violation(key, what, rp_)
+    m = dict(re.findall(r"(\w+)=(\d+)", bstats))
+    c.coverage["transaction_building_calls"] = {
+        "rule": "one evaluation = one transaction-building call of the real WalletManager during which the real handler committed the pending blocks of its scenario right before a chosen read transaction "
+                "(or before a chosen read inside a selection round); scenario = call shape x kind of pending blocks, placements = every read transaction of the call as traced without commits. "
+                "Each result is compared with the extracted model build_sched (inputs in order, outputs total, fee, number of read transactions) and judged by the extracted predicate: "
+                "tx_boundary (one boundary in [start, end] at which no input is listed twice, every input is an unspent mature standard unreserved coin, inputs - outputs = fee), "
+                "refusal_boundary, lookup_can_fail, manual_boundary. " + bstats,
+        "scenarios": int(m.get("build_scenarios", 0)), "calls": nW, "calls_overlapped_by_a_commit": nW_nontrivial,
+        "by_call": bcalls, "by_pending_blocks": bkinds, "by_result": bres,
+        "max_read_transactions_of_one_call": int(m.get("maxrts", 0)), "read_transactions": int(m.get("read_transactions", 0)),
+        "commits_injected": int(m.get("commits_injected", 0)), "placements_inside_a_selection_round": int(m.get("intra_placements", 0)),
+        "plans_spreading_the_blocks_over_several_placements": int(m.get("split_plans", 0)),
+        "transactions_correct_at_a_boundary_but_with_a_fee_target_carried_over_from_another": n_alone_tx,
+        "refusals_right_only_for_an_amount_carried_over_from_another_boundary (C17_build_refusal_carried_refuted)": n_alone_ref,
+        "results_equal_to_the_keep_picks_model_and_not_to_the_model_of_the_code": n_keep_like,
+        "mismatching_scenarios": len(bbad),
+        "samples": [l for l in bmo.splitlines() if l.startswith("W\t")][:4],
+    }
+
     # 3. race detector exploration (supporting evidence only)
     race_info = {"status": "not run"}
     routs, rerr = V.go_build(["c17"], race=True)
@@ -274,8 +406,8 @@ def main(tier, replay=None):
             c.violation(key, "the race detector reports unsynchronised accesses: " + k, {"report": blk, "rerun": "GORACE=halt_on_error=0 /verif/build/bin/c17-race -mode race -ms 4000"})
 
     c.coverage.update({
-        "evaluations": nv,
-        "distinct_nontrivial": len(distinct),
+        "evaluations": nv + nW,
+        "distinct_nontrivial": len(distinct) + nW_nontrivial,
         "rule": "one evaluation = one query (WalletBalance / AddressBalance / GetUtxo / transaction-building coin selection) of the real WalletManager whose View met 1-3 block commits (plain connects, or a reorg of depth 1-2) "
                 "made by the real handler goroutine before chosen reads (the wrapper numbers the reads; positions drawn uniformly over the reads, every 4th history forces two connects between the height read and the iterator = the confs-wrap shape). "
                 "distinct_nontrivial = distinct (history, query, schedule) with at least one commit strictly between two reads. Each answer and read count is compared with the extracted model: snapshot semantics must hold "
@@ -286,10 +418,11 @@ def main(tier, replay=None):
         "lock_discipline": {"sites_lacking_their_struct_mutex (C17_lock_discipline_refuted)": {k: sorted(v["variables"]) for k, v in sorted(culp.items())}},
         "race_detector": race_info,
         "samples": [l for l in mo.splitlines() if l.startswith("V\t")][:6],
-        "disagreements_checked": nv + nq,
-        "mismatching_histories": len(bad),
+        "disagreements_checked": nv + nq + nW,
+        "mismatching_histories": len(bad) + len(bbad),
     })
-    c.assumptions = ["node mempool empty; the coin-selection query is exercised only where no coin of the wallet is spent by a pending transaction (the Reads model has no pending set)",
+    c.assumptions = ["transaction-building calls: one call at a time (the reservation cache does not change while it runs); the node's chain moves before the wallet is told (look-ups fetch previous transactions from the node)",
+                     "node mempool empty; the coin-selection query is exercised only where no coin of the wallet is spent by a pending transaction (the Reads model has no pending set)",
                      "CoinbaseMaturity lowered to 4 and scrypt N to 16 by the harness (package variables)",
                      "commits are injected between reads, not inside goleveldb (a commit is atomic for readers: trusted)"]
     brk = None
